@@ -334,7 +334,24 @@ def form_cases(ctx, n):
         ps = rng.sample(pl, rng.randint(0, max(0, len(pl) - 1)))
         order = [[p, rng.choice(rl)] for p in ps]
         lmap = {int(p): int(r) for p, r in order}
-        for name, p2, r2 in forms.pair_forms(pred, ref, which=[rng.choice(["channels_last", "even_odd", "window", "readonly", "subclass"])]):
+        which = None if i < 12 else [rng.choice(["channels_last", "even_odd", "window", "readonly", "subclass"])]     # the first cases in every form
+        if i < 12:
+            # small label values shared crosswise between the two maps, more predictions than references, one prediction matched
+            sc = gen.shared_value_scene(rng, dtype=rng.choice([np.uint8, np.uint16]))
+            if sc is not None:
+                pred, ref = sc
+                k2 = rng.choice([0, 1])
+                vals = sorted(set(np.unique(pred).tolist()) - {0})
+                ren = dict(zip(vals, [1, 2, 3][k2:] + [1, 2, 3][:k2]))
+                pred = np.vectorize(lambda v: ren.get(int(v), 0))(pred).astype(pred.dtype)
+                rv = sorted(set(np.unique(ref).tolist()) - {0})
+                ref = np.vectorize(lambda v: {rv[0]: 1, rv[1]: 2}.get(int(v), 0))(ref).astype(ref.dtype)
+                pl = [int(x) for x in np.unique(pred) if x]
+                rl = [int(x) for x in np.unique(ref) if x]
+                first = int(pred[ref != 0][pred[ref != 0] != 0][0])
+                order = [[first, int(ref[pred == first][ref[pred == first] != 0][0])]]
+                lmap = {int(p): int(r) for p, r in order}
+        for name, p2, r2 in forms.pair_forms(pred, ref, which=which):
             inp = {"shape": list(pred.shape), "bits": pred.dtype.itemsize * 8, "pred": gen.arr_json(pred), "ref": gen.arr_json(ref), "lmap": order,
                    "form": name, "src": f"form{i}"}
             ctx.case(inp, True)
